@@ -237,11 +237,51 @@ def expr_of_depth(draw, names, ops, depth):
     """Expression whose depth is at most `depth`, built top-down so deep trees are common."""
     if depth <= 0 or draw(st.integers(0, 9)) < 2:
         return ["T", draw(st.sampled_from(list(names)))]
+    if depth >= 2 and "AND" in ops and "IMPLIES" in ops and draw(st.integers(0, 11)) == 0:
+        return _near_symmetric(draw, names, ops, depth)
     pool = list(ops) + (["NOT", "NOT"] if "NOT" in ops else [])
     op = draw(st.sampled_from(pool))
     if op == "NOT":
         return ["NOT", draw(expr_of_depth(names, ops, depth - 1))]
     return [op, draw(expr_of_depth(names, ops, depth - 1)), draw(expr_of_depth(names, ops, depth - 1))]
+
+
+def _perturb(draw, e, names):
+    """e with one leaf replaced by another name (or unchanged) - same shape, same operators."""
+    leaves = [0]
+
+    def count(x):
+        if x[0] == "T":
+            leaves[0] += 1
+        else:
+            for sub in x[1:]:
+                count(sub)
+    count(e)
+    if leaves[0] == 0 or draw(st.integers(0, 2)) == 0:
+        return e
+    target = draw(st.integers(0, leaves[0] - 1))
+    new_name = draw(st.sampled_from(list(names)))
+    seen = [0]
+
+    def rec(x):
+        if x[0] == "T":
+            i = seen[0]
+            seen[0] += 1
+            return ["T", new_name] if i == target else x
+        return [x[0]] + [rec(sub) for sub in x[1:]]
+    return rec(e)
+
+
+def _near_symmetric(draw, names, ops, depth):
+    """Trees that look like the expansion of an equivalence / xor (what readers and writers pattern-match on),
+    exactly or with one leaf off: (x => y) & (y' => x'),  (x & !y) | (!x' & y')."""
+    x = draw(expr_of_depth(names, [o for o in ops if o in ("NOT", "AND", "OR")] or ["NOT"], min(depth - 2, 1)))
+    y = draw(expr_of_depth(names, [o for o in ops if o in ("NOT", "AND", "OR")] or ["NOT"], min(depth - 2, 1)))
+    x2, y2 = _perturb(draw, x, names), _perturb(draw, y, names)
+    imp = draw(st.sampled_from([o for o in ("IMPLIES", "REQUIRES") if o in ops]))
+    if "OR" in ops and draw(st.booleans()):
+        return ["OR", ["AND", x, ["NOT", y]], ["AND", ["NOT", x2], y2]]
+    return ["AND", [imp, x, y], [imp, y2, x2]]
 
 
 def _blocks(draw, k, allow_groups=True):
@@ -287,8 +327,8 @@ def model_specs(draw, profile: Profile, min_feats=1, max_feats=12, with_ctcs=Tru
         f = {"name": names[i], "abstract": draw(st.booleans()) if profile.abstract else False,
              "ftype": draw(st.sampled_from(profile.ftypes)), "fcard": None, "attrs": [], "rels": []}
         if profile.fcards and draw(st.integers(0, 4)) == 0:
-            lo = draw(st.integers(0, 3))
-            f["fcard"] = [lo, draw(st.one_of(st.just(-1), st.integers(lo, lo + 3)))]
+            lo = draw(st.one_of(st.integers(0, 3), st.integers(0, 120)))
+            f["fcard"] = [lo, draw(st.one_of(st.just(-1), st.integers(lo, lo + 3), st.integers(lo, lo + 1200)))]
         if profile.attrs is not None:
             f["attrs"] = profile.attrs(draw, names[i])
         return f
